@@ -6,8 +6,10 @@ use postcard_schema::schema::owned::OwnedDataModelType;
 use serde_json::{json, Value as Json};
 use std::collections::HashSet;
 
-fn reference_set(t: &Tree, out: &mut HashSet<OwnedDataModelType>) {
-    out.insert(schematree::to_owned_expected(t));
+/// the schema itself and every schema nested anywhere inside it, as neutral trees (compared with the harness' own
+/// equality and hashing, not with the `Eq` / `Hash` impls of the types under test)
+fn reference_set(t: &Tree, out: &mut HashSet<Tree>) {
+    out.insert(t.clone());
     for c in t.children() {
         reference_set(c, out);
     }
@@ -23,14 +25,22 @@ pub fn check(tree: &Tree, l: &mut Local) -> CaseResult {
         l.class("display-equals-pseudocode");
     }
     let used = no_panic(|| owned.all_used_types()).map_err(|p| fail("inspect", format!("all_used_types panicked: {}", p), cj()).sig(format!("panic:{}", panic_site(&p))))?;
-    let mut want = HashSet::new();
+    let mut want: HashSet<Tree> = HashSet::new();
     reference_set(tree, &mut want);
-    if used != want {
-        let missing: Vec<_> = want.difference(&used).take(3).collect();
-        let extra: Vec<_> = used.difference(&want).take(3).collect();
+    let used_trees: HashSet<Tree> = used.iter().map(schematree::from_owned).collect();
+    if used_trees != want || used.len() != want.len() {
+        let missing: Vec<_> = want.difference(&used_trees).take(3).collect();
+        let extra: Vec<_> = used_trees.difference(&want).take(3).collect();
         return Err(fail(
             "inspect",
-            format!("all_used_types: {} types, reference walk finds {}; missing {:?}; unexpected {:?}", used.len(), want.len(), missing, extra),
+            format!(
+                "all_used_types: {} types ({} structurally distinct), reference walk finds {}; missing {:?}; unexpected {:?}",
+                used.len(),
+                used_trees.len(),
+                want.len(),
+                missing,
+                extra
+            ),
             cj(),
         ));
     }
